@@ -463,6 +463,31 @@ def run(db, tier):
     from props import c09
     rep.rule("R-PARTIAL-ITER", "the type checker never walks a collection of AST nodes through an element-dropping adaptor (shared with C09)")
     c09.rule_partial_iter(db, rep)
+    # ---------------- R-DEFS-ORDER: definitions are validated after ALL mapfiles were loaded
+    rep.rule("R-DEFS-ORDER", "in every command entry point that loads mapfiles named by `#pragma mapfile`, Truth::validate_defs runs after "
+                             "load_mapfiles_from_pragmas (signatures from pragma mapfiles that were never validated make later passes panic, e.g. on "
+                             "an unknown enum name)")
+    n_do = 0
+    for g in sorted(db.fns.values(), key=lambda g: (g.file, g.line)):
+        if g.gen or not g.file.endswith("src/cli_def.rs"):
+            continue
+        pr = [bi for bi, t in g.calls() if (t.get("f") or "").endswith("load_mapfiles_from_pragmas")]
+        vd = [bi for bi, t in g.calls() if (t.get("f") or "").endswith("::validate_defs")]
+        if not pr or not vd:
+            continue
+        n_do += 1
+        rep.fn(g)
+        # no path on which the pragma mapfiles are loaded AFTER validation
+        ok = not any(p_ in g.reachable_from(v) and p_ != v for v in vd for p_ in pr)
+        rep.check(ok, "R-DEFS-ORDER", g.id, g.loc, "pragma mapfiles are loaded before the definitions are validated",
+                  "%s validates the definitions before the `#pragma mapfile` files are loaded: their signatures are never validated" % g.id.rsplit("::", 2)[-2])
+    rep.floor("command entry points with pragma mapfiles", n_do, 4)
+    # ---------------- R-VISIT-EXPR: validation passes look at every sub-expression
+    rep.rule("R-VISIT-EXPR", "every hand-written visit_expr override delegates to walk_expr or visits all children of the variants it matches (a "
+                             "validation pass that skips a nested expression lets later passes hit their assertions); audited exceptions are listed "
+                             "in rules/visit.py")
+    n_ve = visit.check_all_expr_visitors(db, rep, "R-VISIT-EXPR")
+    rep.floor("visit_expr overrides checked", n_ve, 6)
     # ---------------- R-RECOVERY-STATE: bookkeeping that is asserted after an error-recovering loop is done before anything can fail
     rep.rule("R-RECOVERY-STATE", "old-ECL compile: each `script` item takes its timeline slot before any fallible step of the same item (the loop recovers "
                                  "from errors and `assert_eq!(timeline_indices_in_ast_order.next(), None)` follows it: an item that fails after the "
